@@ -67,6 +67,8 @@ def gen_calls(rng, n):
             kw.pop("initial_state", None)
         if kind in ("QUBO", "QUSO", "PUBO", "PUSO", "PCBO", "PCSO") and rng.random() < 0.25:
             call["remap"] = True          # the user renumbered the labels (set_mapping) before annealing
+        if kind != "dict" and terms and "post" not in call and rng.random() < 0.2:
+            call["warm"] = True           # the same object was annealed before with other coefficients, then edited in place
         calls.append(call)
     return calls
 
